@@ -7,7 +7,7 @@ mkdir -p build
 python3 tools/extract_tables.py || true
 (cd lean && lake build)
 [ -f harness/Cargo.lock ] || cp /repo/Cargo.lock harness/Cargo.lock
-(cd harness && cargo build --offline --quiet && cargo build --offline --quiet --release) || true
+(cd harness && CARGO_TARGET_DIR=/verif/build/target cargo build --offline --quiet && CARGO_TARGET_DIR=/verif/build/target cargo build --offline --quiet --release) || true
 (cd /repo && cargo build --offline --quiet --features cmdline --target-dir /verif/build/cli-target) || true
 (cd /repo && cargo build --offline --quiet --features python --target-dir /verif/build/py-target) || true
 echo setup done
